@@ -99,3 +99,38 @@
 //@|    ensures r is Ok ==> queued(&self.tx, param, |d: RequestDetails| d matches RequestDetails::WriteMultipleRegisters(x) && x.request == request),
 //@entry| broadcast use axiom_queue_inv_intro;
         }
+
+// ---- the deprecated callback API: the same requests, completed through a callback; every command it queues satisfies the queue invariant ----
+//@item rodbus/src/client/channel.rs | CallbackSession | derive=
+        use crate::types::{BitIterator, RegisterIterator};
+        impl CallbackSession {
+//@fn rodbus/src/client/channel.rs | CallbackSession::new | tags=C03
+//@|    ensures r.tx == channel.tx, r.param == param,
+//@fn rodbus/src/client/channel.rs | CallbackSession::send | tags=C03,C10
+//@|    requires tokio::sync::mpsc::queue_inv(command),
+//@|    ensures final(self).tx == old(self).tx, final(self).param == old(self).param,
+//@fn rodbus/src/client/channel.rs | CallbackSession::read_bits | tags=C03,C10
+//@|    requires forall|x: ReadBits| #[trigger] call_requires(wrap_req, (x,)),
+//@|        forall|x: ReadBits, d: RequestDetails| #[trigger] call_ensures(wrap_req, (x,), d) ==> d == RequestDetails::ReadCoils(x) || d == RequestDetails::ReadDiscreteInputs(x),
+//@|    ensures final(self).tx == old(self).tx, final(self).param == old(self).param,
+//@entry| broadcast use axiom_queue_inv_intro;
+//@fn rodbus/src/client/channel.rs | CallbackSession::read_registers | tags=C03,C10
+//@|    requires forall|x: ReadRegisters| #[trigger] call_requires(wrap_req, (x,)),
+//@|        forall|x: ReadRegisters, d: RequestDetails| #[trigger] call_ensures(wrap_req, (x,), d) ==> d == RequestDetails::ReadHoldingRegisters(x) || d == RequestDetails::ReadInputRegisters(x),
+//@|    ensures final(self).tx == old(self).tx, final(self).param == old(self).param,
+//@entry| broadcast use axiom_queue_inv_intro;
+//@fn rodbus/src/client/channel.rs | CallbackSession::read_coils | tags=C03 | eta=RequestDetails::ReadCoils>ReadBits>RequestDetails | eta=RequestDetails::ReadDiscreteInputs>ReadBits>RequestDetails
+//@fn rodbus/src/client/channel.rs | CallbackSession::read_discrete_inputs | tags=C03 | eta=RequestDetails::ReadCoils>ReadBits>RequestDetails | eta=RequestDetails::ReadDiscreteInputs>ReadBits>RequestDetails
+//@fn rodbus/src/client/channel.rs | CallbackSession::read_holding_registers | tags=C03 | eta=RequestDetails::ReadHoldingRegisters>ReadRegisters>RequestDetails | eta=RequestDetails::ReadInputRegisters>ReadRegisters>RequestDetails
+//@fn rodbus/src/client/channel.rs | CallbackSession::read_input_registers | tags=C03 | eta=RequestDetails::ReadHoldingRegisters>ReadRegisters>RequestDetails | eta=RequestDetails::ReadInputRegisters>ReadRegisters>RequestDetails
+//@fn rodbus/src/client/channel.rs | CallbackSession::write_single_coil | tags=C03
+//@entry| broadcast use axiom_queue_inv_intro;
+//@fn rodbus/src/client/channel.rs | CallbackSession::write_single_register | tags=C03
+//@entry| broadcast use axiom_queue_inv_intro;
+//@fn rodbus/src/client/channel.rs | CallbackSession::write_multiple_registers | tags=C03
+//@|    requires value.wf(),
+//@entry| broadcast use axiom_queue_inv_intro;
+//@fn rodbus/src/client/channel.rs | CallbackSession::write_multiple_coils | tags=C03
+//@|    requires value.wf(),
+//@entry| broadcast use axiom_queue_inv_intro;
+        }
